@@ -52,3 +52,10 @@ CORPUS += [
     M("read-skips-recursively", L, "        with memoryview(packet) as packet_mv:\n            return self._process_packet(packet_mv)",
       "        if len(packet) > 5 and packet[5] & 0xF == 0x1 and not self._handshake_pending:\n            return await self.read(timeout=timeout)\n\n        with memoryview(packet) as packet_mv:\n            return self._process_packet(packet_mv)"),
 ]
+# round 6 (.raise): an exception that is constructed but not raised reports nothing
+CORPUS += [
+    M("raise-dropped-send-dead", L, "        if not self.alive:\n            raise ProtocolError(\"Transport is closing or closed.\")", "        if not self.alive:\n            ProtocolError(\"Transport is closing or closed.\")"),
+    M("raise-dropped-error-packet", L, "            raise ProtocolError(\"Error packet received.\")", "            ProtocolError(\"Error packet received.\")"),
+    M("read-not-awaited", L, "        packet = await self._protocol.read(**kwargs)", "        packet = self._protocol.read(**kwargs)"),
+    M("n-read-awaited-later", L, "        packet = await self._protocol.read(**kwargs)", "        pending = self._protocol.read(**kwargs)\n        packet = await pending", "S"),
+]
